@@ -37,6 +37,7 @@ type Eng struct {
 	methIDs  map[string]int
 	implCache map[string][]types.Type
 	modTypes  []types.Type
+	evaluable map[*FuncContract]bool
 }
 
 func loadEngine(repo string) (*Eng, error) {
